@@ -25,6 +25,8 @@ func propC16(c *Ctx) {
 		ruleSearchLastLE(c, rsl)
 		rtd := c.Rule("trace-dedup-adjacent", "a position is dropped from the trace only when it repeats the last recorded one", 1)
 		ruleTraceDedupAdjacent(c, rtd)
+		rtf := c.Rule("throw-trace-flag", "an error the VM wraps where a Go error re-enters it is thrown with position recording on; only a ready-made *RuntimeError is thrown without", 2)
+		ruleThrowTraceFlag(c, rtf)
 	}()
 	// ---- lit-pos -----------------------------------------------------------------------
 	rl := c.Rule("lit-pos", "every literal node of the parser's AST that is constructed outside the parser (replacement literals made by the optimizer and the compiler) sets its position field: an instruction compiled from a literal without a position has no source-map entry and errors are reported 'at -' or at the wrong line", 20)
